@@ -185,3 +185,65 @@ Proof.
     + intros k Hk. rewrite Psw2, LP. now apply saved_psw_keeps_bit.
     + intros a Ha Da Db. unfold ramb. rewrite B2. fold (ramb m1 a). now apply Fr.
 Qed.
+
+(* ---- CALLPS: the same entry sequence, with the new control block named by %r0 and the saved PC past the CALLPS ---- *)
+Definition entry_from (N : Z) (m : mach) : res mach unit :=
+  bind (context_switch_1 N (entry0 m)) (fun _ m => bind (context_switch_2 N m) (fun _ m =>
+    context_switch_3 (psw_enter_2 m))).
+
+Lemma entry_from_effect m N P S H :
+  bus_wf (mbus m) -> R m R_PCBP = P -> R m R_ISP = S -> ldw m N = H ->
+  in_ram_w N -> in_ram_w (N + 4) -> in_ram_w (N + 8) ->
+  in_ram_w P -> in_ram_w (P + 4) -> in_ram_w (P + 8) -> in_ram_w S -> S + 4 < 4294967296 ->
+  (P + 12 <= N \/ N + 12 <= P) -> (S + 4 <= P \/ P + 12 <= S) -> (S + 4 <= N \/ N + 12 <= S) ->
+  Z.testbit H 8 = false -> Z.testbit H 7 = false ->
+  exists m1, entry_from N m = Ok tt m1
+    /\ bus_wf (mbus m1)
+    /\ R m1 R_ISP = S + 4 /\ R m1 R_PCBP = N /\ PSW m1 = handler_psw H
+    /\ R m1 R_PC = ldw m (N + 4) /\ R m1 R_SP = ldw m (N + 8)
+    /\ (forall i, 0 <= i <= 10 -> R m1 i = R m i)
+    /\ ldw m1 S = w32 P /\ ldw m1 P = w32 (saved_psw (PSW m) H)
+    /\ ldw m1 (P + 4) = w32 (R m R_PC) /\ ldw m1 (P + 8) = w32 (R m R_SP)
+    /\ (forall a, RAMB <= a -> (a < S \/ S + 4 <= a) -> (a < P \/ P + 12 <= a) -> ramb m1 a = ramb m a).
+Proof.
+  intros W EP ES EH HN0 HN4 HN8 HP0 HP4 HP8 HS Hlt D1 D2 D3 HR HI.
+  pose proof HN0 as [n1 [n2 n3]]. pose proof HP0 as [p1 [p2 p3]]. pose proof HS as [s1 [s2 s3]].
+  pose proof HN8 as [n81 [n82 n83]]. pose proof HP8 as [p81 [p82 p83]].
+  unfold entry_from.
+  pose proof (entry0_wf m W) as W0.
+  assert (E13 : R (entry0 m) R_PCBP = P) by (rewrite entry0_R by (unfold R_PCBP; lia); exact EP).
+  assert (LN : forall k, k = 0 \/ k = 4 \/ k = 8 -> ldw (entry0 m) (N + k) = ldw m (N + k)).
+  { intros k Hk. apply entry0_ldw; rewrite ?ES; unfold RAMB in *; lia. }
+  assert (LN0 : ldw (entry0 m) N = H) by (replace N with (N + 0) by lia; rewrite LN by lia; rewrite Z.add_0_r; exact EH).
+  assert (HR0 : Z.testbit (ldw (entry0 m) N) 8 = false) by (rewrite LN0; exact HR).
+  assert (D1' : P + 8 <= N \/ N + 4 <= P + 4) by lia.
+  rewrite (cs1_effect_noR N P (entry0 m) W0 E13 HP0 HP4 HP8 HN0 D1' HR0). cbn [bind].
+  rewrite LN0, entry0_psw. rewrite !entry0_R by (unfold R_PC, R_SP; lia).
+  fold (saved_psw (PSW m) H).
+  fold (entry5 (entry0 m) P (saved_psw (PSW m) H) (R m R_PC) (R m R_SP)).
+  pose proof (entry5_wf (entry0 m) P (saved_psw (PSW m) H) (R m R_PC) (R m R_SP) W0) as W5.
+  assert (L5N : forall k, k = 0 \/ k = 4 \/ k = 8 ->
+            ldw (entry5 (entry0 m) P (saved_psw (PSW m) H) (R m R_PC) (R m R_SP)) (N + k) = ldw m (N + k)).
+  { intros k Hk. rewrite entry5_ldw_other by (unfold RAMB in *; lia). now apply LN. }
+  assert (L5N0 : ldw (entry5 (entry0 m) P (saved_psw (PSW m) H) (R m R_PC) (R m R_SP)) N = H)
+    by (replace N with (N + 0) by lia; rewrite L5N by lia; rewrite Z.add_0_r; exact EH).
+  rewrite (entry_tail N _ W5 HN0 HN4 HN8) by (rewrite L5N0; assumption).
+  rewrite L5N0, !L5N by lia.
+  eexists. split; [reflexivity|].
+  split; [rewrite !mbus_setR; exact W5|].
+  split.
+  { unfold R_ISP. rewrite !R_setR_other by lia. rewrite entry5_R by lia. change 14 with R_ISP. rewrite entry0_isp. lia. }
+  split; [unfold R_PCBP; rewrite !R_setR_other by lia; apply R_setR_same|].
+  split; [unfold PSW, R_PSW; apply R_setR_same|].
+  split; [unfold R_PC; rewrite !R_setR_other by lia; apply R_setR_same|].
+  split; [unfold R_SP; rewrite !R_setR_other by lia; apply R_setR_same|].
+  split; [intros i Hi; rewrite !R_setR_other by lia; rewrite entry5_R by lia; apply entry0_R; lia|].
+  rewrite !ldw_setR.
+  split.
+  { rewrite entry5_ldw_other by (unfold RAMB in *; lia). rewrite <- ES, <- EP. apply entry0_ldw_isp. rewrite ES. exact s1. }
+  split; [apply entry5_ldw0; lia|].
+  split; [apply entry5_ldw4; lia|].
+  split; [apply entry5_ldw8; lia|].
+  intros a Ha D4 D5. rewrite !ramb_setR. rewrite entry5_ramb by (unfold RAMB in *; lia).
+  apply entry0_ramb; rewrite ?ES; assumption.
+Qed.
